@@ -436,17 +436,24 @@ theorem inv_uvClose {s : S} (h : Nat) (hi : Inv s) : Inv (uvClose s h) := by
     · subst e; exact Or.inr h0
     · rw [upd_other _ _ _ _ e] at hc; exact Or.inl hc
 
+theorem inv_setRef {s : S} (h : Nat) (r : Bool) (hi : Inv s) : Inv (setRef s h r) := by
+  unfold setRef
+  refine inv_frame hi rfl rfl rfl ?_ ?_
+  · intro h'; simp only [upd_apply]; split
+    · rename_i e; subst e; simp [keyOf]
+    · rfl
+  · intro h' hc; simp only [upd_apply] at hc; split at hc
+    · rename_i e; subst e; exact Or.inl hc
+    · exact Or.inl hc
+
 theorem inv_applyOp {s : S} (o : Op) (hi : Inv s) : Inv (applyOp s o).1 := by
-  unfold applyOp
-  split
-  · exact hi
-  rename_i hc
-  simp only [Bool.not_eq_true] at hc
-  cases o with
-  | start h sig => exact inv_sigStart h sig false hi hc
-  | oneshot h sig => exact inv_sigStart h sig true hi hc
-  | stop h => exact inv_sigStop h hi
-  | close h => exact inv_uvClose h hi
+  cases o <;> simp only [applyOp] <;> split <;> (try exact hi)
+  · rename_i hc; simp only [Bool.not_eq_true] at hc; exact inv_sigStart _ _ false hi hc
+  · rename_i hc; simp only [Bool.not_eq_true] at hc; exact inv_sigStart _ _ true hi hc
+  · exact inv_sigStop _ hi
+  · exact inv_uvClose _ hi
+  · exact inv_setRef _ _ hi
+  · exact inv_setRef _ _ hi
 
 theorem inv_runOps {s : S} (os : List Op) (hi : Inv s) : Inv (runOps s os) := by
   induction os generalizing s with
@@ -738,15 +745,29 @@ theorem aux_uvClose {d : Nat → Nat} {s : S} (h : Nat) (ha : AuxG d s) : AuxG d
     · rename_i e; have := f1 L m hm; rw [e] at this; exact this
     · exact f1 L m hm
 
+theorem aux_setRef {d : Nat → Nat} {s : S} (h : Nat) (r : Bool) (ha : AuxG d s) : AuxG d (setRef s h r) := by
+  unfold setRef
+  refine aux_frame ha rfl ?_ ?_ ?_
+  · intro j; simp only [upd_apply]; split
+    · rename_i e; subst e; simp
+    · simp
+  · intro L k hk; simp only [upd_apply]; split
+    · rename_i e; subst e; exact ha.cq L k hk
+    · exact ha.cq L k hk
+  · intro hst; obtain ⟨f1, f2⟩ := ha.fresh hst
+    refine ⟨?_, f2⟩
+    intro L m hm; simp only [upd_apply]; split
+    · rename_i e; have := f1 L m hm; rw [e] at this; exact this
+    · exact f1 L m hm
+
 theorem aux_applyOp {d : Nat → Nat} {s : S} (o : Op) (ha : AuxG d s) : AuxG d (applyOp s o).1 := by
-  unfold applyOp
-  split
-  · exact ha
-  cases o with
-  | start h sig => exact aux_sigStart h sig false ha
-  | oneshot h sig => exact aux_sigStart h sig true ha
-  | stop h => exact aux_sigStop h ha
-  | close h => exact aux_uvClose h ha
+  cases o <;> simp only [applyOp] <;> split <;> (try exact ha)
+  · exact aux_sigStart _ _ false ha
+  · exact aux_sigStart _ _ true ha
+  · exact aux_sigStop _ ha
+  · exact aux_uvClose _ ha
+  · exact aux_setRef _ _ ha
+  · exact aux_setRef _ _ ha
 
 theorem aux_runOps {d : Nat → Nat} {s : S} (os : List Op) (ha : AuxG d s) : AuxG d (runOps s os) := by
   induction os generalizing s with
